@@ -38,12 +38,14 @@ RULE = (
     'steps are retained; when the window has a TFLAG variable every column '
     'of it equals the retained source rows and SDATE\', STIME\' == '
     'TFLAG\'[0,0]; sliceDimensions must return.  Each source is put into '
-    'one of three states before the window is taken (ioapispec.preps): '
-    'synced (as constructed, 1/3), var-added (one more standard-dimension '
+    'one of these states before the window is taken (ioapispec.preps): '
+    'synced (as constructed, 1/4), var-added (one more standard-dimension '
     'variable added by createVariable or copyVariable without a following '
-    'updatemeta, so TFLAG/VAR lag behind NVARS, 1/3), no-tflag (TFLAG '
-    'deleted, file timed by SDATE/STIME/TSTEP or the CF time variable, 1/3; '
-    'for the disk route the state is applied before saving); the reference '
+    'updatemeta, so TFLAG/VAR lag behind NVARS, 1/4), no-tflag (TFLAG '
+    'deleted, file timed by SDATE/STIME/TSTEP or the CF time variable, 1/4), '
+    'VAR-LIST without its padding (trailing blanks stripped 1/8, names '
+    'separated by single blanks 1/8); '
+    'for the disk route the state is applied before saving; the reference '
     'is always the source\'s own getTimes().  Non-trivial: >= 2 '
     'dimensions windowed, or a negative int, or a window touching either '
     'edge of its dimension without covering it, or a retained time range '
@@ -278,7 +280,7 @@ def _check(case, fs, m, f, r):
         r.label('steps-kept:%s' % ('1' if cnt == 1 else '2+'))
     if fs['tstep'] >= 240000:
         r.label('tstep>=24h')
-    if prep != 'synced':
+    if prep in ('var-added', 'no-tflag'):
         # the result's TFLAG cannot be the sliced source TFLAG: it has to be
         # rebuilt for the window
         r.label('tflag-rebuilt')
